@@ -58,12 +58,25 @@ def gen_case(rng, tier, avoid):
             nm2 = 'TWIN'
             for sname in (('SET-A', 'SET-B') if rng.random() < 0.5 else ('SET-A', 'SET-B', 'SET-A', 'SET-B')):
                 spec.add(lfi, kd, nm2, set_name=sname)
+        origin_ops0 = [op for op in spec.ops[start:] if op.get('kind') == 'origin']
+        if len(origin_ops0) > 1 and rng.random() < 0.1:
+            origin_ops0[0]['kwargs']['origin_reference'] = 5 + li        # the defining origin numbered explicitly, not 0 ...
+            origin_ops0[-1]['kwargs']['origin_reference'] = 0            # ... and a later origin asking for 0
         # explicit origin references on a few objects, pointing at origins of this logical file
         refs = [op['kwargs']['origin_reference'] for op in spec.ops[start:] if op.get('kind') == 'origin'
-                and 'origin_reference' in op['kwargs']]
+                and op['kwargs'].get('origin_reference')]      # (an explicit 0 is the library's 'not given')
         for op in spec.ops[start:]:
             if op.get('op') == 'add' and op['kind'] not in ('origin',) and refs and rng.random() < 0.15:
                 op['kwargs']['origin_reference'] = gen.pick(rng, refs)
+        origin_ops = [op for op in spec.ops[start:] if op.get('kind') == 'origin']
+        if len(origin_ops) > 1 and rng.random() < 0.2:
+            # objects created FOR a later origin by passing on its reference as read back from the object (whatever number it got;
+            # the later origin may have asked for 0 while the defining one has an explicit other number)
+            later_o = origin_ops[-1]
+            for op in spec.ops[start:]:
+                if op.get('op') == 'add' and op['kind'] not in ('origin', 'channel', 'frame') and rng.random() < 0.4 \
+                        and 'origin_reference' not in op['kwargs']:
+                    op['kwargs']['origin_reference'] = {'$originref_of': later_o['h']}
         prog = spec.ops[start:]
         mode = rng.choice(['as_is', 'shuffle', 'shuffle', 'origin_last'])
         if mode == 'shuffle':
@@ -115,7 +128,7 @@ def gen_case(rng, tier, avoid):
                 targets.update(_v.refs_in(op.get('kwargs')))
             referenced = [op for op in mine if op.get('h') in targets]
             origins = [op for op in hist if op.get('op') == 'add' and op['lf'] == lfi['lf'] and op['kind'] == 'origin'
-                       and 'origin_reference' in op['kwargs']]
+                       and op['kwargs'].get('origin_reference')]      # (an explicit 0 is renumbered by the library)
             for n in range(rng.choice([1, 1, 2, 3])):
                 pool = referenced if referenced and rng.random() < 0.7 else mine
                 if not pool:
@@ -158,6 +171,10 @@ def check_file(m, dec, fid, fp0):
             want = None
             if mo.origin_reference is not None and mo.kind != 'origin':
                 want = mo.origin_reference
+                if isinstance(want, dict) and '$originref_of' in want:
+                    # the user passed on the reference read back from an origin it had created: that origin's reference AS WRITTEN
+                    tgt = loc.get(want['$originref_of'])
+                    want = tgt[1].name[0] if tgt is not None else None
             for p, lit, _ in mo.props_later:
                 if p == 'origin_reference':
                     want = lit
